@@ -236,7 +236,7 @@ def gate_obligations(run: Run, stats) -> Tuple[int, int, Dict[str, Any]]:
     return n, ok, info
 
 
-def native_gate_case(validity: List[bool], fresh_out: bool = False, same_basename: bool = False, plugins=("python", "rust", "dotnet")) -> Optional[Dict[str, Any]]:
+def native_gate_case(validity: List[bool], fresh_out: bool = False, same_basename: bool = False, plugins=("python", "rust", "dotnet"), optimise: bool = False) -> Optional[Dict[str, Any]]:
     """Run the real command on model files that are valid / schema-violating as given; report exit status and files written.
     The schema-violating edits are ones the model classes load (only the gate can stop them); edits x plugins are tried until one run
     ends with exit 0 or files written."""
@@ -269,7 +269,7 @@ def native_gate_case(validity: List[bool], fresh_out: bool = False, same_basenam
                 td = os.path.join(tmp, "tests-out")
                 if not fresh_out:
                     os.makedirs(out)
-                rc, log, dt = gen.run_plugin(plugin, out, models=models, test_dir=td if fresh_out else None)
+                rc, log, dt = gen.run_plugin(plugin, out, models=models, test_dir=td if fresh_out else None, optimise=optimise)
                 written = sorted(gen.tree_digest(out))[:5] if os.path.isdir(out) else []
                 if fresh_out and os.path.isdir(out) and not written:
                     written = ["<the output directory itself was created>"]
@@ -340,15 +340,17 @@ def run_gate_native(run: Run, plugins: List[str], tmp: str) -> int:
             )
     # positions: the committed model cut into consecutive files, one of them schema-violating (but loadable), with distinct and with
     # equal base names; the command must fail and write nothing whatever the position
-    cases = [(v, same) for v in ([True, False], [False, True], [True, False, True]) for same in (False, True)]
+    cases = [(v, same, False) for v in ([True, False], [False, True], [True, False, True]) for same in (False, True)]
+    # the same gate with assertions compiled away (python -O / PYTHONOPTIMIZE=1)
+    cases += [([False], False, True), ([True, False], False, True)]
     with cf.ThreadPoolExecutor(max_workers=6) as ex:
-        pres = list(ex.map(lambda c: (c, native_gate_case(c[0], same_basename=c[1], plugins=("python", "rust"))), cases))
-    for (validity, same), nat in pres:
+        pres = list(ex.map(lambda c: (c, native_gate_case(c[0], same_basename=c[1], plugins=("python", "rust"), optimise=c[2])), cases))
+    for (validity, same, opt), nat in pres:
         if nat and (nat["exit"] == 0 or nat["files_written"]):
-            pos = "".join("v" if v else "X" for v in validity) + ("-same-basename" if same else "")
+            pos = "".join("v" if v else "X" for v in validity) + ("-same-basename" if same else "") + ("-python-O" if opt else "")
             run.violation(
                 f"gate:native:position:{pos}",
-                f"model files {nat['models']}" + (" (all named lsp.json, in different directories)" if same else "") + f": `python -m generator --plugin {nat['plugin']}` exits {nat['exit']} with {len(nat['files_written'])} files written",
+                f"model files {nat['models']}" + (" (all named lsp.json, in different directories)" if same else "") + (" under PYTHONOPTIMIZE=1" if opt else "") + f": `python -m generator --plugin {nat['plugin']}` exits {nat['exit']} with {len(nat['files_written'])} files written",
                 {**nat, "replay": "python -m generator --model <consecutive parts of lsp.json, the marked one edited> --plugin <p> --output-dir <empty dir>"},
                 True,
             )
@@ -487,6 +489,38 @@ def main(argv: List[str]) -> int:
         tab(drop_empty_defaults(rb) == drop_empty_defaults(doc), "load:read-back:lsp.json", "reading back the loaded committed model does not give the document", first_difference=_first_diff(drop_empty_defaults(doc), drop_empty_defaults(rb)))
     except Exception as e:  # noqa
         tab(False, "load:lsp.json", f"the committed model does not load: {type(e).__name__}: {e}")
+    # read-back of documents whose TEXT fields carry unusual but schema-valid strings (line endings, surrounding blanks, tabs, non-ASCII, empty):
+    # loading must not normalise them
+    texts = ["line one\r\nline two", "trailing blank ", "  leading blanks", "tab\there", "carriage\rreturn only", "na\u00efve \U0001F44D", "", "ends with newline\n"]
+
+    def with_texts(d0: Dict) -> Dict:
+        d1 = copy.deepcopy(d0)
+        k = 0
+        for sec in ("structures", "enumerations", "typeAliases", "requests", "notifications"):
+            for item in d1[sec][:12]:
+                item["documentation"] = texts[k % len(texts)]
+                k += 1
+                if k % 3 == 0:
+                    item["since"] = texts[(k + 1) % len(texts)]
+                if k % 4 == 0:
+                    item["sinceTags"] = [texts[(k + 2) % len(texts)], "3.17.0"]
+                if k % 5 == 0:
+                    item["deprecated"] = texts[(k + 3) % len(texts)]
+                for pr in (item.get("properties") or [])[:2]:
+                    pr["documentation"] = texts[(k + 4) % len(texts)]
+                for vv in (item.get("values") or [])[:2]:
+                    vv["documentation"] = texts[(k + 5) % len(texts)]
+        return d1
+
+    try:
+        dt = with_texts(doc)
+        import jsonschema as _js
+
+        _js.validate(dt, {**schema, "$ref": "#/definitions/MetaModel"})
+        rbt = read_back(model.LSPModel(**copy.deepcopy(dt)))
+        tab(drop_empty_defaults(rbt) == drop_empty_defaults(dt), "load:read-back:text-fields", "reading back a model whose documentation / since / deprecated texts contain CR LF, blanks, tabs, non-ASCII or are empty does not give the document (a text was normalised)", first_difference=_first_diff(drop_empty_defaults(dt), drop_empty_defaults(rbt)))
+    except Exception as e:  # noqa
+        tab(False, "load:read-back:text-fields", f"a schema-valid model with unusual text fields does not load: {type(e).__name__}: {str(e)[:200]}")
     # ---- 3. equality natively over every (class, structural field) - replay oracle and bounded stand-in
     for fi, contract, label, meta in items:
         w = native_eq_replay(meta["class"], meta["structural"])
@@ -626,6 +660,14 @@ def main(argv: List[str]) -> int:
             return rc, gen.tree_digest(out), log
 
         rc1, one_file, _ = cmd_output([os.path.join(REPO, "generator", "lsp.json")], "one")
+        # the same document in the other encodings a JSON text may have (RFC 8259 readers detect them; editors on Windows write them)
+        raw = open(os.path.join(REPO, "generator", "lsp.json"), "rb").read().decode("utf-8")
+        for enc, label in (("utf-8-sig", "UTF-8 with a byte-order mark"), ("utf-16", "UTF-16")):
+            pth = os.path.join(tmp, f"lsp-{enc}.json")
+            open(pth, "wb").write(raw.encode(enc))
+            rce, outs_e, loge = cmd_output([pth], enc)
+            tab(rce == 0 and outs_e == one_file, f"load:encoding:{enc}", f"the committed model saved as {label} is not processed like the plain UTF-8 file (exit {rce})" + ("" if rce == 0 else f": {loge[-160:]}"), encoding=enc)
+            gate_runs += 1
         for nparts in (2, 3):
             paths = []
             for i in range(nparts):
